@@ -700,9 +700,9 @@ func isFloat(t types.Type) bool {
 func (fr *frame) binop(st *State, op token.Token, a, b *Value, t types.Type, site ast.Node) *Value {
 	switch op {
 	case token.EQL:
-		return scalar(valueEq(a, b), t)
+		return scalar(goEq(a, b), t)
 	case token.NEQ:
-		return scalar(Not(valueEq(a, b)), t)
+		return scalar(Not(goEq(a, b)), t)
 	}
 	if a.K != VScalar || b.K != VScalar {
 		panic(unsupported("binary operator on composite values"))
@@ -953,4 +953,19 @@ func (fr *frame) coerce(st *State, v *Value, want types.Type) *Value {
 		return &c
 	}
 	return v
+}
+
+// goEq: Go's == including comparisons against the nil literal.
+func goEq(a, b *Value) *Term {
+	isNil := func(v *Value) bool {
+		if v.K != VScalar || v.T == nil {
+			return false
+		}
+		bb, ok := v.T.(*types.Basic)
+		return ok && bb.Kind() == types.UntypedNil
+	}
+	if isNil(a) || isNil(b) {
+		return specEq(a, b)
+	}
+	return valueEq(a, b)
 }
